@@ -166,6 +166,15 @@ def fanout_ok(m, q, books_field, target):
         if fe.guards or len(fe.args) != 2:
             continue
         src, op = fe.args
+        # `for_each(&mut f)` with f a closure held in a (borrowed) local: its single definition
+        hops = 0
+        while op[0] == "local" and hops < 4:
+            hops += 1
+            defs = q.ev.def_sites().get(op[1], [])
+            if len(defs) != 1 or defs[0][0] != "s":
+                break
+            st_ = q.fn.body.blocks[defs[0][1]].stmts[defs[0][2]]
+            op = strip(q.ev.rvalue(st_.rv, (defs[0][1], defs[0][2])))
         names = []
         e = src
         while e[0] == "call" and e[2] and e[4] in ("iter_mut", "into_iter", "iter", "deref_mut", "as_mut_slice"):
